@@ -117,6 +117,13 @@ def cells(thorough):
             out.append(dict(base, values=vals, count=count, nf=nf, sr=sr, sa=sa, enc=enc, wants=(sr, sa, False), extra_attr=True,
                             binding=binding))
     out.append(dict(base, values=(), count=0))
+    # B2. special identities: values carried as a NameID child (eduPersonTargetedID), two identity keys that the
+    #     name mapping sends to the same attribute (spellings differing in case)
+    for special, (sr, sa, enc), binding in itertools.product(('eptid', 'alias-case', 'eptid+alias-case'), ((True, False, False), (False, True, True), (True, True, False)),
+                                                             (POST, REDIR, SOAP) if thorough else (POST,)):
+        if binding == SOAP and sr and enc:
+            continue
+        out.append(dict(base, special=special, sr=sr, sa=sa, enc=enc, wants=(sr, sa, False), binding=binding))
     # C. lifetime / policy / session expiry / authn context
     for pol, snooa, auth in itertools.product(POLICIES, (None, 900), (False, True)):
         out.append(dict(base, policy=pol, snooa=snooa, authority=auth))
@@ -184,6 +191,14 @@ def evaluate(c):
     if c['extra_attr']:
         identity['mail'] = ['alice@example.org', VALUES[c['values'][0]]]
         identity['customAttr'] = [VALUES[c['values'][0]]]
+    expect_override = {}
+    sp_ = c.get('special') or ''
+    if 'eptid' in sp_:
+        identity['eduPersonTargetedID'] = ['tid-one', 'tid-two']
+    if 'alias-case' in sp_:
+        identity['sn'] = ['Smith']
+        identity['SN'] = ['Smythe']
+        expect_override = {'sn': ['Smith', 'Smythe'], 'SN': None}
     subj = {'transient': 'tr-subject-1', 'persistent': 'pers-subject-<&>', 'email': 'alice@example.org', 'unspecified': 'un spec é'}[c['nf']]
     nid = saml.NameID(text=subj, format=NF[c['nf']])
     authn = {'class_ref': forge.PASSWORD}
@@ -229,6 +244,11 @@ def evaluate(c):
     if idn['name_id'][0] != subj or idn['name_id'][1] != NF[c['nf']]:
         bad.append('name-id-differs')
     want_ava = {k: sorted(x.strip() for x in v) for k, v in identity.items()}
+    for k, v in expect_override.items():
+        if v is None:
+            want_ava.pop(k, None)
+        else:
+            want_ava[k] = sorted(v)
     got_ava = {k: sorted(v) for k, v in idn['ava'].items()}
     if got_ava != want_ava:
         bad.append('attributes-differ')
@@ -273,7 +293,7 @@ def run(ctx):
         'level': 'exploration',
         'coverage': {
             'evaluations': len(cs), 'distinct_nontrivial': len(nontriv), 'exhaustive': True, 'accepted_and_equal': ok,
-            'rule': 'three complete sub-products through create_authn_response -> apply_binding -> independent transport decoder -> parse_authn_request_response inside a world built from mutually generated metadata: (A) sign_response x sign_assertion x encrypt_assertion x encrypted_advice_attributes x binding (POST/Redirect/SOAP) x signature/digest algorithm settings (default, 5 diagonal, 4 mixed) x every SP want_* setting the signing choice satisfies; (B) %d hostile attribute values x value count (1,2,5) x NameID format x {signed response, signed+encrypted assertion} x binding; (D) every sequence of up to 3 (thorough: 4) logins of two users with persistent / transient NameIDPolicy on one Server (identifier built by the IdP from userid): format as requested, identifier maps back to the user, persistent identifier stable; (C) release-policy lifetime shapes (none, default, per-SP entry with and without own lifetime) x session_not_on_or_after x authenticating authority.  Acceptance is REQUIRED and every field the application reads must equal what was asked (attribute values after .strip())' % len(VALUES),
+            'rule': 'three complete sub-products through create_authn_response -> apply_binding -> independent transport decoder -> parse_authn_request_response inside a world built from mutually generated metadata: (A) sign_response x sign_assertion x encrypt_assertion x encrypted_advice_attributes x binding (POST/Redirect/SOAP) x signature/digest algorithm settings (default, 5 diagonal, 4 mixed) x every SP want_* setting the signing choice satisfies; (B) %d hostile attribute values x value count (1,2,5) x NameID format x {signed response, signed+encrypted assertion} x binding; identities with eduPersonTargetedID (values carried as NameID children) and with two keys that the name mapping sends to one attribute; (D) every sequence of up to 3 (thorough: 4) logins of two users with persistent / transient NameIDPolicy on one Server (identifier built by the IdP from userid): format as requested, identifier maps back to the user, persistent identifier stable; (C) release-policy lifetime shapes (none, default, per-SP entry with and without own lifetime) x session_not_on_or_after x authenticating authority.  Acceptance is REQUIRED and every field the application reads must equal what was asked (attribute values after .strip())' % len(VALUES),
             'samples': [{'case': {k: str(v) for k, v in cs[len(cs) // 2].items()}, 'result': res[len(cs) // 2]}],
         },
         'assumptions': ['values outside the XML Char production, lone surrogates and bare CR are not generated (XML cannot carry them unchanged)', 'xmlsec1 model at the seam'],
